@@ -88,7 +88,7 @@ def correspondence(tier, seed, corpus=()):
                          model=model_output(IMPORTS, RUN, cases[i][0])[:3000]))
     sizes = [len(o) for o, _ in runs]
     return [_scenario_stream(cases, distinct, mism, bad, problems, runs, hist, sizes, stats),
-            real_stream(tier, seed), solve_stream()]
+            real_stream(tier, seed), solve_stream(), block_smooth_stream(tier, seed)]
 
 
 def _scenario_stream(cases, distinct, mism, bad, problems, runs, hist, sizes, stats):
@@ -127,6 +127,34 @@ def real_stream(tier, seed):
                 samples=[sample], distribution=dict(dimension=dims))
 
 
+def block_smooth_stream(tier, seed):
+    """block-smooth functions are constrained block by block: real block-smooth quadratics on R^n with a coordinate
+    partition (equal and unequal block constants), recorded through the real API with the blocks valued by the true
+    projections; every generated class constraint must hold (harness/members.py, shared with C03)."""
+    from . import members
+    rng = random.Random(seed * 31 + 1515)
+    n = 40 if tier == "quick" else 600
+    problems, ran = [], 0
+    sample = None
+    for _ in range(n):
+        try:
+            r = members.check_class("BlockSmoothConvexFunction", rng, rng.randrange(10 ** 6))
+        except Exception as e:
+            problems.append(dict(kind="block-smooth-member-check-raised", error=repr(e)))
+            continue
+        if r and "skipped" in r:
+            continue
+        ran += 1
+        if r:
+            problems.append(r)
+        sample = sample or dict(cls="BlockSmoothConvexFunction", verdict="ok" if not r else r.get("kind"))
+    return dict(name="block-smooth-members", evaluations=ran, distinct_nontrivial=ran,
+                rule="seeded real block-smooth quadratics with coordinate partitions (members.check_class); every world is "
+                     "a distinct (partition, constants, samples) draw",
+                mismatches=[], n_mismatch=0, problems=problems[:3], n_problems=len(problems), samples=[sample or {}],
+                distribution=dict(worlds=ran))
+
+
 def solve_stream():
     """the solve-time loop of pep.py on three tiny models: max |x^0|^2 + <y^(d-1), x^0> s.t. |x|^2 <= 1, |y|^2 <= 1
     is 1 exactly when the orthogonality relations (within x, and across x and y) are imposed (2 for d = 1)."""
@@ -154,14 +182,33 @@ def solve_stream():
         want_n = 4 * d * (d - 1) // 2
         want_v = 2.0 if d == 1 else 1.0
         rec.update(value=v1, value_again=v2, constraints=n1, constraints_again=n2, sent=sent)
+        # a further point decomposed AFTER two solves, then a third solve: the relations of the new point with itself
+        # and with the earlier ones must be imposed as well ( (m+1)^2 d(d-1)/2 relations, all of them sent )
+        try:
+            z = pb.set_initial_point()
+            part.get_block(z, 0)
+            pb.set_initial_condition(z ** 2 <= 1)
+            v3 = pb.solve(verbose=0)
+            n3 = len(part.list_of_constraints)
+            sent3 = sum(1 for c in part.list_of_constraints
+                        if any(c is s_ for s_ in pb._list_of_constraints_sent_to_wrapper))
+        except Exception as e:
+            problems.append(dict(kind="solve-raised", d=d, error=repr(e), stage="third solve after a new decomposition"))
+            continue
+        want_n3 = 9 * d * (d - 1) // 2
+        rec.update(constraints_after_new_point=n3, sent_after_new_point=sent3, value_after_new_point=v3)
         samples.append(rec)
+        if n3 != want_n3 or sent3 != n3:
+            problems.append(dict(kind="relations-of-a-point-decomposed-between-solves-missing", expected=want_n3, **rec))
+            continue
         if n1 != want_n or n2 != want_n or sent != n1:
             problems.append(dict(kind="solve-time-partition-constraints", expected=want_n, **rec))
         # a solver float: compared only against a wide margin (the exact content of the list is checked above)
         elif v1 is None or v2 is None or abs(v1 - want_v) > 0.05 or abs(v2 - want_v) > 0.05:
             problems.append(dict(kind="solve-value-shows-missing-or-extra-orthogonality", expected=want_v, **rec))
     return dict(name="solve-time-loop", evaluations=3, distinct_nontrivial=2,
-                rule="three fixed tiny PEPs (d = 1, 2, 3) solved twice with cvxpy/SCS; non-trivial = d >= 2",
+                rule="three fixed tiny PEPs (d = 1, 2, 3) solved twice with cvxpy/SCS, then a third time after a new point "
+                     "was decomposed; non-trivial = d >= 2",
                 mismatches=[], n_mismatch=0, problems=problems, n_problems=len(problems), samples=samples[:2],
                 distribution=dict(d=[1, 2, 3]))
 
